@@ -4,6 +4,7 @@ import ZkModel.Codec
 import ZkModel.TreeDriver
 import ZkModel.Graph.Ops
 import ZkModel.ProtoDriver
+import ZkModel.GraphDriver
 /-!
 # Line-protocol driver: `zkmodel (model|spec) < ops` prints one canonical line per op.
 
@@ -257,7 +258,20 @@ def rlnStep (st : St) (w : List String) : St × String :=
 def step (st : St) (line : String) : St × String :=
   let e := st.env
   match line.trimAscii.toString.splitOn " " with
-  | "rln" :: rest => rlnStep st rest
+  | "graph" :: rest => match GraphDriver.step (e.mode == .spec) ("graph" :: rest) with
+    | some r => (st, r)
+    | none => (st, "bad-op")
+  | ["reframe", h, c] => match GraphDriver.step (e.mode == .spec) ["reframe", h, c] with
+    | some r => (st, r)
+    | none => (st, "bad-op")
+  | ["bundled", ins] => match GraphDriver.step (e.mode == .spec) ["bundled", ins] with
+    | some r => (st, r)
+    | none => (st, "bad-op")
+  | "rln" :: rest =>
+    match (if rest.head? == some "seeded_key_gen" || rest.head? == some "seeded_ext_key_gen" || rest.head? == some "key_gen" || rest.head? == some "ext_key_gen"
+           then ProtoDriver.stepPure (protoEnv e) ("rln" :: rest) else none) with
+    | some r => (st, r)
+    | none => rlnStep st rest
   | "poseidon" :: args =>
     match parseNats args with
     | some inp => (st, showOutcome ((e.poseidon inp).map fr))
